@@ -2467,6 +2467,13 @@ def build():
             f.kind = 'pure'
     nfields = len(world.fields)
     sums, rejected = infer_summaries(live, nfields)
+    for f in live:
+        w_ = sums[f.id]['writes']
+        names = mparams(f)
+        if f.kind == 'pure' and w_:
+            rejected[f.qual] = 'a public side-effect-free function writes its parameter(s) %s' % [names[i] for i in w_]
+        elif f.kind == 'mutator' and any(i != 0 for i in w_):
+            rejected[f.qual] = 'a mutator writes, besides its receiver, its parameter(s) %s' % [names[i] for i in w_ if i]
     return world, live, sums, rejected, nfields
 
 
@@ -2599,7 +2606,110 @@ def dump_body(body, ind):
 
 
 def extract_guards(world, live):
-    return '', []
+    """Head-of-function isinstance guards -> (Lean text, json).  A guard is
+       `if <formula>: raise TypeError(...)` statements at the head of the body, or a leading
+       if/elif/.../else chain whose tests are isinstance formulas and whose else is `raise TypeError`.
+       The formula is kept as written (and / or / not over isinstance(param, classes))."""
+    out, listed = [], []
+
+    def is_raise_typeerror(body):
+        if len(body) != 1 or not isinstance(body[0], ast.Raise) or body[0].exc is None:
+            return False
+        e = body[0].exc
+        if isinstance(e, ast.Call):
+            e = e.func
+        return isinstance(e, ast.Name) and e.id == 'TypeError'
+
+    class NotGuard(Exception):
+        pass
+
+    def form(t, f, args, classes):
+        if isinstance(t, ast.BoolOp):
+            parts = [form(v, f, args, classes) for v in t.values]
+            op = 'and' if isinstance(t.op, ast.And) else 'or'
+            r = parts[0]
+            for q in parts[1:]:
+                r = (op, r, q)
+            return r
+        if isinstance(t, ast.UnaryOp) and isinstance(t.op, ast.Not):
+            return ('not', form(t.operand, f, args, classes))
+        if isinstance(t, ast.Call) and isinstance(t.func, ast.Name) and t.func.id == 'isinstance' and len(t.args) == 2 \
+                and isinstance(t.args[0], ast.Name) and t.args[0].id in f.params:
+            a = t.args[0].id
+            if a not in args:
+                args.append(a)
+                classes[a] = []
+            names = t.args[1].elts if isinstance(t.args[1], ast.Tuple) else [t.args[1]]
+            idx = []
+            for n in names:
+                nm = ast.unparse(n)
+                if nm not in classes[a]:
+                    classes[a].append(nm)
+                idx.append(classes[a].index(nm) + 1)
+            return ('isa', args.index(a), idx)
+        raise NotGuard()
+
+    def lean(g):
+        if g[0] == 'isa':
+            return '(.isa %d [%s])' % (g[1], ', '.join(map(str, g[2])))
+        if g[0] == 'not':
+            return '(.not %s)' % lean(g[1])
+        return '(.%s %s %s)' % (g[0], lean(g[1]), lean(g[2]))
+
+    for f in live:
+        if f.kind == 'helper':
+            continue
+        body = list(f.node.body)
+        if body and isinstance(body[0], ast.Expr) and isinstance(body[0].value, ast.Constant):
+            body = body[1:]
+        args, classes, rejects = [], {}, []
+        for st in body:
+            if not isinstance(st, ast.If):
+                break
+            try:
+                if is_raise_typeerror(st.body) and not st.orelse:
+                    rejects.append(form(st.test, f, args, classes))
+                    continue
+                # if / elif / else: raise TypeError chain
+                tests, cur = [], st
+                while True:
+                    tests.append(cur.test)
+                    if len(cur.orelse) == 1 and isinstance(cur.orelse[0], ast.If):
+                        cur = cur.orelse[0]
+                        continue
+                    break
+                if is_raise_typeerror(cur.orelse):
+                    a2, c2 = list(args), {k: list(v) for k, v in classes.items()}
+                    fs_ = [form(t, f, a2, c2) for t in tests]
+                    args[:], classes = a2, c2
+                    r = fs_[0]
+                    for q in fs_[1:]:
+                        r = ('or', r, q)
+                    rejects.append(('not', r))
+                break
+            except NotGuard:
+                break
+        if not rejects:
+            listed.append(f.qual)
+            continue
+        r = rejects[0]
+        for q in rejects[1:]:
+            r = ('or', r, q)
+        sizes = [len(classes[a]) for a in args]
+        nvals = 1
+        for s_ in sizes:
+            nvals *= s_ + 1
+        if nvals > 20000:
+            listed.append(f.qual + ' (guard over too many combinations: %d)' % nvals)
+            continue
+        out.append({'qual': f.qual, 'args': args, 'classes': [classes[a] for a in args], 'sizes': sizes,
+                    'formula': r, 'lean': lean(r), 'combinations': nvals})
+    L = ['/-- isinstance guards at the head of the public functions: (name, number of classes named per guarded',
+         'argument, the rejecting formula as written in the source) -/',
+         'def guards : List (String × List Nat × Pymeeus.Guards.GForm) := [']
+    L.append(',\n'.join('  ("%s", [%s], %s)' % (g['qual'], ', '.join(map(str, g['sizes'])), g['lean']) for g in out))
+    L.append(']')
+    return '\n'.join(L), {'guarded': out, 'unguarded': listed}
 
 
 if __name__ == '__main__':
